@@ -1,6 +1,7 @@
 import CoapVerif.Lemmas.SendQueue
 import CoapVerif.Lemmas.TimerSim
 import CoapVerif.Lemmas.SchedInv
+import CoapVerif.Lemmas.Conserve
 /-
 C06 — the retransmission queue: every pending message is (re)transmitted on the RFC 7252 §4.2 schedule and
 ends in exactly one outcome.
@@ -846,5 +847,72 @@ example : (∀ se ∈ [({ maxRtx := 1 } : Msg.Sess)], SessOk se) ∧ RunG (Msg.i
     (Msg.run (Msg.init 0 [{ maxRtx := 1 }]) gevs).out.filterMap obsM =
       [.tx 9000 0 2 1 true, .nackRetries 6000 0 1, .tx 6000 0 2 0 true, .tx 2000 0 1 1 true, .tx 0 0 1 0 true] := by
   decide
+
+open Coap.Sim Coap.Sched in
+/-- **m_single_outcome** (`single_outcome` on M, full — conservation law for EVERY run over the C06 alphabet, punctual
+or late, NSTART-delayed messages included, any number of messages and sessions): for every (session, mid)
+
+  accepted `coap_send` calls  =  outcome NACK-handler calls (TOO_MANY_RETRIES or RST, carrying the sent PDU)
+                               + silent completions (an arriving ACK that finds the message in the send queue)
+                               + nodes still in the send queue + nodes still in the session's delay queue.
+
+(`coap_send` refuses a Confirmable only when the same message id is already waiting in the delay queue.)  So a
+message id accepted once is — at every moment — exactly one of: waiting for NSTART room, pending, completed by its
+ACK, or reported by exactly ONE NACK; it is never concluded twice and never lost. -/
+theorem m_single_outcome (now0 : Nat) (sess : List Msg.Sess) (evs : List Msg.Ev)
+    (hs : ∀ se ∈ sess, SessOk se) (hin : RunG (Msg.init now0 sess) evs) (s mid : Nat) :
+    let l := Msg.run (Msg.init now0 sess) evs
+    accC s mid (Msg.init now0 sess) evs =
+      nackC s mid l.out + ackC s mid (Msg.init now0 sess) evs + pendC s mid l.q.nodes +
+        midC mid (l.getS s).delayq := by
+  intro l
+  have h := run_conserve_M (P := fun _ _ _ => True) (gpar_of sess hs) s mid evs _
+    (finv_init False _ now0 sess hs) hin (fun _ _ _ _ => trivial)
+  rw [phi_init s mid now0 sess hs] at h
+  simp only [Phi] at h
+  simp only [l]
+  omega
+
+open Coap.Sim Coap.Sched in
+/-- **m_never_sent_again** (full): split any run over the C06 alphabet at any point at which (session, mid) is neither
+in the send queue nor in the delay queue — by `m_single_outcome` every accepted `coap_send` of it so far has had its ONE
+outcome (ACK, NACK RST, NACK TOO_MANY_RETRIES).  If the rest of the run does not submit (session, mid) again, the
+number of transmissions of (session, mid) never grows — it is never sent again, whatever else happens on this or any
+other session — and it never re-enters a queue. -/
+theorem m_never_sent_again (now0 : Nat) (sess : List Msg.Sess) (evs1 evs2 : List Msg.Ev)
+    (hs : ∀ se ∈ sess, SessOk se) (hin : RunG (Msg.init now0 sess) (evs1 ++ evs2)) (s mid : Nat)
+    (hq : pendC s mid (Msg.run (Msg.init now0 sess) evs1).q.nodes = 0)
+    (hd : midC mid ((Msg.run (Msg.init now0 sess) evs1).getS s).delayq = 0)
+    (h2 : accC s mid (Msg.run (Msg.init now0 sess) evs1) evs2 = 0) :
+    txC s mid (Msg.run (Msg.init now0 sess) (evs1 ++ evs2)).out = txC s mid (Msg.run (Msg.init now0 sess) evs1).out ∧
+    pendC s mid (Msg.run (Msg.init now0 sess) (evs1 ++ evs2)).q.nodes = 0 ∧
+    midC mid ((Msg.run (Msg.init now0 sess) (evs1 ++ evs2)).getS s).delayq = 0 := by
+  have hp := gpar_of sess hs
+  rw [runG_append] at hin
+  have hi := run_finv (pu := False) (P := fun _ _ _ => True) hp evs1 _ (finv_init False _ now0 sess hs) hin.1
+    (fun h => h.elim) (fun _ _ _ _ => trivial)
+  have := run_quiet_M hp s mid evs2 _ hi hin.2 (fun _ _ _ _ => trivial) (by simp only [Psi]; omega) h2
+  have e : Msg.run (Msg.init now0 sess) (evs1 ++ evs2) = Msg.run (Msg.run (Msg.init now0 sess) evs1) evs2 := by
+    simp [Msg.run, List.foldl_append]
+  rw [e]
+  have h3 := this.2
+  simp only [Psi] at h3
+  exact ⟨this.1, by omega, by omega⟩
+
+open Coap.Sim Coap.Sched in
+/-- non-vacuity / reading of `m_single_outcome` and `m_never_sent_again` on the gated witness run: message (0,1) — one
+accepted send, one TOO_MANY_RETRIES NACK; message (0,2) — one accepted send, delayed after 3 events (counted in the
+delay queue), silently completed by its ACK at the end; after its give-up (7 events) message (0,1) has been sent
+twice and is still sent twice at the end -/
+example : accC 0 1 (Msg.init 0 [{ maxRtx := 1 }]) gevs = 1 ∧
+    nackC 0 1 (Msg.run (Msg.init 0 [{ maxRtx := 1 }]) gevs).out = 1 ∧
+    accC 0 2 (Msg.init 0 [{ maxRtx := 1 }]) gevs = 1 ∧ ackC 0 2 (Msg.init 0 [{ maxRtx := 1 }]) gevs = 1 ∧
+    midC 2 ((Msg.run (Msg.init 0 [{ maxRtx := 1 }]) (gevs.take 3)).getS 0).delayq = 1 ∧
+    RunG (Msg.init 0 [{ maxRtx := 1 }]) (gevs.take 7 ++ gevs.drop 7) ∧
+    pendC 0 1 (Msg.run (Msg.init 0 [{ maxRtx := 1 }]) (gevs.take 7)).q.nodes = 0 ∧
+    midC 1 ((Msg.run (Msg.init 0 [{ maxRtx := 1 }]) (gevs.take 7)).getS 0).delayq = 0 ∧
+    accC 0 1 (Msg.run (Msg.init 0 [{ maxRtx := 1 }]) (gevs.take 7)) (gevs.drop 7) = 0 ∧
+    txC 0 1 (Msg.run (Msg.init 0 [{ maxRtx := 1 }]) (gevs.take 7)).out = 2 ∧
+    txC 0 1 (Msg.run (Msg.init 0 [{ maxRtx := 1 }]) gevs).out = 2 := by decide
 
 end Coap.C06
